@@ -29,11 +29,29 @@ impl<VM: VMBinding> BucketQueue<VM> {
     }
 
     fn push(&self, w: Box<dyn GCWork<VM>>) {
+        #[cfg(feature = "mmtk_verif")]
+        crate::verif::gc::ev(
+            crate::verif::gc::Kind::BqPush,
+            crate::verif::gc::pid(&*w),
+            crate::verif::gc::tag(w.get_type_name(), crate::verif::gc::push_stage()),
+        );
         self.queue.push(w);
     }
 
     fn push_all(&self, ws: Vec<Box<dyn GCWork<VM>>>) {
+        #[cfg(feature = "mmtk_verif")]
+        crate::verif::gc::ev(
+            crate::verif::gc::Kind::BqPushAll,
+            ws.len(),
+            crate::verif::gc::push_stage(),
+        );
         for w in ws {
+            #[cfg(feature = "mmtk_verif")]
+            crate::verif::gc::ev(
+                crate::verif::gc::Kind::BqPush,
+                crate::verif::gc::pid(&*w),
+                crate::verif::gc::tag(w.get_type_name(), crate::verif::gc::push_stage()),
+            );
             self.queue.push(w);
         }
     }
@@ -121,6 +139,12 @@ impl<VM: VMBinding> WorkBucket<VM> {
     }
 
     pub fn set_enabled(&self, enabled: bool) {
+        #[cfg(feature = "mmtk_verif")]
+        crate::verif::gc::ev(
+            crate::verif::gc::Kind::BucketSetEnabled,
+            self.stage as usize,
+            enabled as usize,
+        );
         self.enabled.store(enabled, Ordering::SeqCst)
     }
 
@@ -156,6 +180,8 @@ impl<VM: VMBinding> WorkBucket<VM> {
 
     /// Open the bucket
     pub fn open(&self) {
+        #[cfg(feature = "mmtk_verif")]
+        crate::verif::gc::ev(crate::verif::gc::Kind::BucketOpen, self.stage as usize, 0);
         self.open.store(true, Ordering::SeqCst);
     }
 
@@ -180,24 +206,34 @@ impl<VM: VMBinding> WorkBucket<VM> {
             "Bucket {:?} not drained before close",
             self.stage
         );
+        #[cfg(feature = "mmtk_verif")]
+        crate::verif::gc::ev(crate::verif::gc::Kind::BucketClose, self.stage as usize, 0);
         self.open.store(false, Ordering::Relaxed);
     }
 
     /// Add a work packet to this bucket
     /// Panic if this bucket cannot receive prioritized packets.
     pub fn add_prioritized(&self, work: Box<dyn GCWork<VM>>) {
+        #[cfg(feature = "mmtk_verif")]
+        crate::verif::gc::set_push_stage(self.stage as usize);
         self.prioritized_queue.as_ref().unwrap().push(work);
         self.notify_one_worker();
     }
 
     /// Add a work packet to this bucket
     pub fn add<W: GCWork<VM>>(&self, work: W) {
+        #[cfg(feature = "mmtk_verif")]
+        crate::verif::gc::set_push_stage(self.stage as usize);
         self.queue.push(Box::new(work));
+        #[cfg(feature = "mmtk_verif")]
+        crate::verif::gc::yp(crate::verif::gc::Site::BucketAddBeforeNotify);
         self.notify_one_worker();
     }
 
     /// Add a work packet to this bucket
     pub fn add_boxed(&self, work: Box<dyn GCWork<VM>>) {
+        #[cfg(feature = "mmtk_verif")]
+        crate::verif::gc::set_push_stage(self.stage as usize);
         self.queue.push(work);
         self.notify_one_worker();
     }
@@ -207,23 +243,31 @@ impl<VM: VMBinding> WorkBucket<VM> {
     /// used for notifying workers.  This usually happens if the current thread is the last worker
     /// parked.
     pub(crate) fn add_no_notify<W: GCWork<VM>>(&self, work: W) {
+        #[cfg(feature = "mmtk_verif")]
+        crate::verif::gc::set_push_stage(self.stage as usize);
         self.queue.push(Box::new(work));
     }
 
     /// Like [`WorkBucket::add_no_notify`], but the work is boxed.
     pub(crate) fn add_boxed_no_notify(&self, work: Box<dyn GCWork<VM>>) {
+        #[cfg(feature = "mmtk_verif")]
+        crate::verif::gc::set_push_stage(self.stage as usize);
         self.queue.push(work);
     }
 
     /// Add multiple packets with a higher priority.
     /// Panic if this bucket cannot receive prioritized packets.
     pub fn bulk_add_prioritized(&self, work_vec: Vec<Box<dyn GCWork<VM>>>) {
+        #[cfg(feature = "mmtk_verif")]
+        crate::verif::gc::set_push_stage(self.stage as usize);
         self.prioritized_queue.as_ref().unwrap().push_all(work_vec);
         self.notify_all_workers();
     }
 
     /// Add multiple packets
     pub fn bulk_add(&self, work_vec: Vec<Box<dyn GCWork<VM>>>) {
+        #[cfg(feature = "mmtk_verif")]
+        crate::verif::gc::set_push_stage(self.stage as usize);
         if work_vec.is_empty() {
             return;
         }
@@ -232,7 +276,36 @@ impl<VM: VMBinding> WorkBucket<VM> {
     }
 
     /// Get a work packet from this bucket
+    #[cfg_attr(feature = "mmtk_verif", allow(unreachable_code))]
     pub fn poll(&self, worker: &Worker<Box<dyn GCWork<VM>>>) -> Steal<Box<dyn GCWork<VM>>> {
+        // Verification build: same computation as the original body below, followed by the
+        // (consumer, hence AFTER) events, then an early return.
+        #[cfg(feature = "mmtk_verif")]
+        {
+            let verif_len0 = worker.len();
+            let verif_r = if !self.is_enabled() || !self.is_open() || self.is_empty() {
+                Steal::Empty
+            } else if let Some(prioritized_queue) = self.prioritized_queue.as_ref() {
+                prioritized_queue
+                    .steal_batch_and_pop(worker)
+                    .or_else(|| self.queue.steal_batch_and_pop(worker))
+            } else {
+                self.queue.steal_batch_and_pop(worker)
+            };
+            if let Steal::Success(ref verif_w) = verif_r {
+                crate::verif::gc::ev(
+                    crate::verif::gc::Kind::BucketPollOk,
+                    crate::verif::gc::pid(&**verif_w),
+                    crate::verif::gc::tag(verif_w.get_type_name(), self.stage as usize),
+                );
+                crate::verif::gc::ev(
+                    crate::verif::gc::Kind::BucketPollBatch,
+                    self.stage as usize,
+                    worker.len().saturating_sub(verif_len0),
+                );
+            }
+            return verif_r;
+        }
         if !self.is_enabled() || !self.is_open() || self.is_empty() {
             return Steal::Empty;
         }
@@ -254,6 +327,12 @@ impl<VM: VMBinding> WorkBucket<VM> {
 
     pub fn set_sentinel(&self, new_sentinel: Box<dyn GCWork<VM>>) {
         let mut sentinel = self.sentinel.lock().unwrap();
+        #[cfg(feature = "mmtk_verif")]
+        crate::verif::gc::ev(
+            crate::verif::gc::Kind::BucketSetSentinel,
+            crate::verif::gc::pid(&*new_sentinel),
+            crate::verif::gc::tag(new_sentinel.get_type_name(), self.stage as usize),
+        );
         *sentinel = Some(new_sentinel);
     }
 
@@ -282,6 +361,12 @@ impl<VM: VMBinding> WorkBucket<VM> {
             let mut sentinel = self.sentinel.lock().unwrap();
             sentinel.take()
         };
+        #[cfg(feature = "mmtk_verif")]
+        crate::verif::gc::ev(
+            crate::verif::gc::Kind::BucketSchedSentinel,
+            self.stage as usize,
+            maybe_sentinel.is_some() as usize,
+        );
         if let Some(work) = maybe_sentinel {
             // We don't need to notify other workers because this function is called by the last
             // parked worker.  After this function returns, the caller will notify workers because
